@@ -198,6 +198,28 @@ func runC19(c *Ctx) {
 					okV = true
 				}
 			}
+			if !okK || !okV {
+				// the pair decoded in place: the key is the first string decoded, the value the second, and the second
+				// decode continues where the first stopped
+				var kc, vc ssa.Instruction
+				for _, l := range leavesOf(mu.Key) {
+					if l.Kind == leafCallResult && l.Idx == 0 && calleeName(l.Call) == "unmarshalStringSafe" {
+						kc = l.CallIn
+					}
+				}
+				for _, l := range leavesOf(mu.Value) {
+					if l.Kind == leafCallResult && l.Idx == 0 && calleeName(l.Call) == "unmarshalStringSafe" {
+						vc = l.CallIn
+					}
+				}
+				if kc != nil && vc != nil && kc != vc && dominates(kc, vc) {
+					for _, l := range leavesOf(callOf(vc).Args[0]) {
+						if l.Kind == leafCallResult && l.CallIn == kc && l.Idx == 1 {
+							okK, okV = true, true
+						}
+					}
+				}
+			}
 			c.check(okK && okV, "R2", "ext[name] = data of the decoded pair", pos(in), "c.ext[ext.Name] = ext.Data", "the extension table is filled with something other than the advertised name/data pair")
 		})
 		c.check(n >= 1, "R2", "extensions are recorded", p.Pos(rv.Pos()), "one update site", "recvVersion no longer records the advertised extensions")
